@@ -459,7 +459,7 @@ def norm_xy(
     _mean = pts.mean(axis=0)
     XX = np.subtract(pts, _mean, out=out)
 
-    sx = (((XX**2).sum(axis=1) * 0.5) ** -0.5).mean()
+    sx = 1.0 / (((XX**2).sum(axis=1) * 0.5) ** 0.5).mean()
     XX *= sx
 
     tx, ty = -_mean * sx
